@@ -109,7 +109,7 @@ def main(chk):
     from harness import termgen, viral
     n = 300 if quick else 3000
     gen_units = (variants.mixed_units(rnd, n) + termgen.random_join_units(rnd, n // 4) + termgen.random_analytic_units(rnd, n // 6)
-                 + termgen.random_validation_units(rnd, n // 6) + viral.nested_units(rnd, n // 6) + termgen.random_exists_units(rnd, n // 10))
+                 + termgen.random_validation_units(rnd, n // 6) + viral.nested_units(rnd, n // 6) + termgen.random_exists_units(rnd, n // 10) + termgen.random_unpivot_units(rnd, n // 10))
     cases = corpus.discover()
     rnd.shuffle(cases)
     cases = cases[:(150 if quick else len(cases))]
